@@ -65,11 +65,12 @@ OS_STARTERS = {'system', 'popen', 'startfile'}
 OTHER_MODULE_STARTERS = {'pty': {'spawn', 'fork'}, 'asyncio': {'create_subprocess_exec', 'create_subprocess_shell'},
                          'multiprocessing': {'Process', 'Pool'}, 'pexpect': {'spawn', 'run'}, 'commands': {'getoutput'}}
 
-# (file relative to src/exactly_lib, enclosing qualified name, callee) -> in scope of the statement?
+# (file relative to src/exactly_lib, enclosing qualified name) -> in scope of the statement?  (whichever function of
+# subprocess is used there: call / run / Popen are the same site)
 KNOWN_SITES = {
-    ('util/process_execution/process_executor.py', 'ProcessExecutor.execute', 'subprocess.call'): True,
+    ('util/process_execution/process_executor.py', 'ProcessExecutor.execute'): True,
     # the suite-level preprocessor of test case FILES: runs before any test case exists; not "on behalf of a test case"
-    ('processing/preprocessor.py', 'PreprocessorViaExternalProgram.apply', 'subprocess.call'): False,
+    ('processing/preprocessor.py', 'PreprocessorViaExternalProgram.apply'): False,
 }
 
 
@@ -78,6 +79,7 @@ class _SiteVisitor(ast.NodeVisitor):
         self.mod_alias = {}  # local name -> module
         self.name_alias = {}  # local name -> 'module.attr'
         self.scope = []
+        self.fn_waits = []
         self.sites = []
 
     def visit_Import(self, node):
@@ -94,7 +96,19 @@ class _SiteVisitor(ast.NodeVisitor):
 
     def _scoped(self, node):
         self.scope.append(node.name)
+        waits = False
+        if not isinstance(node, ast.ClassDef):
+            # Popen(...) followed by p.wait(timeout=...) / p.communicate(timeout=...) in the same function is a timed site
+            for sub in ast.walk(node):
+                if isinstance(sub, ast.Call) and isinstance(sub.func, ast.Attribute) and sub.func.attr in ('wait', 'communicate'):
+                    for k in sub.keywords:
+                        if k.arg == 'timeout' and not (isinstance(k.value, ast.Constant) and k.value.value is None):
+                            waits = True
+                    if sub.func.attr == 'wait' and sub.args:
+                        waits = True
+        self.fn_waits.append(waits)
         self.generic_visit(node)
+        self.fn_waits.pop()
         self.scope.pop()
 
     visit_FunctionDef = visit_AsyncFunctionDef = visit_ClassDef = _scoped
@@ -125,6 +139,8 @@ class _SiteVisitor(ast.NodeVisitor):
             for k in node.keywords:
                 if k.arg == 'timeout' and isinstance(k.value, ast.Constant) and k.value.value is None:
                     has_timeout = False
+            if callee.endswith('.Popen') and self.fn_waits and self.fn_waits[-1]:
+                has_timeout = True
             self.sites.append(('.'.join(self.scope) or '<module>', callee, has_timeout, node.lineno))
         self.generic_visit(node)
 
@@ -190,12 +206,12 @@ def gen_tables(ctx):
     sites = scan_sites()
     rows = []
     for (rel, q, callee, has_t, line) in sites:
-        key = (rel, q, callee)
+        key = (rel, q)
         known = key in KNOWN_SITES
         in_scope = KNOWN_SITES.get(key, True)  # an unknown site is in scope until someone has looked at it
         rows.append('  (%s, (%s, (%s, %s)))' % (common.cstring('%s:%s:%s' % (rel, q, callee)), cbool(known), cbool(in_scope),
                                               cbool(has_t)))
-    missing = [k for k in KNOWN_SITES if k not in {(r, q, c) for (r, q, c, _, _) in sites}]
+    missing = [k for k in KNOWN_SITES if k not in {(r, q) for (r, q, c, _, _) in sites}]
     txt = ('(* GENERATED on every run by harness/c19.py from the source under %s. Do not edit. *)\n'
            'From Coq Require Import List String NArith Bool.\nImport ListNotations.\n'
            '(** process start sites under src/exactly_lib: (file:function:callee, (known, (in scope of C19, passes timeout=))) *)\n'
@@ -899,8 +915,9 @@ def run_real(ctx, res):
     default = default_timeout()
     sites = all_real_sites()
     if ctx.quick:
-        others = [s for s in sites if s[0] != 'act']
-        chosen = [('act', None, 'cmdline')] + ctx.rng.sample(others, 2)
+        others = [s for s in sites if s[0] != 'act' and s[1] != 'shell']
+        shells = [s for s in sites if s[1] == 'shell']
+        chosen = [('act', None, 'cmdline'), ctx.rng.choice(shells), ctx.rng.choice(others)]
     else:
         chosen = sites
     cases = []
@@ -955,16 +972,16 @@ def run_real(ctx, res):
 def run(ctx, res):
     # (1) source scan (the table was written by gen_tables; here: the tie itself, fail-closed)
     sites = scan_sites()
-    seen = {(r, q, c) for (r, q, c, _, _) in sites}
+    seen = {(r, q) for (r, q, c, _, _) in sites}
     for (rel, q, callee, has_t, line) in sites:
-        if (rel, q, callee) not in KNOWN_SITES:
+        if (rel, q) not in KNOWN_SITES:
             res.errors.append('tie broken: new process start site %s:%d in %s (%s), timeout keyword: %s — not covered by the '
                               'model' % (rel, line, q, callee, has_t))
-        elif KNOWN_SITES[(rel, q, callee)] and not has_t:
+        elif KNOWN_SITES[(rel, q)] and not has_t:
             res.errors.append('tie broken: process start site %s:%d in %s (%s) passes no timeout' % (rel, line, q, callee))
     for k in KNOWN_SITES:
         if k not in seen:
-            res.errors.append('tie broken: known process start site %s:%s (%s) not found any more' % k)
+            res.errors.append('tie broken: known process start site %s:%s not found any more' % k)
     res.extra['process_start_sites'] = ['%s:%d %s %s timeout_kw=%s' % (r, ln, q, c, t) for (r, q, c, t, ln) in sites]
 
     # (2) in-process correspondence
